@@ -28,7 +28,7 @@ impl Property for C08 {
         "C08"
     }
     fn rule(&self) -> String {
-        "Cases: copy_range(s..e) with s<=e<=len; split_off(i)/split(i) with i<=len; first()/last(); subject of any zoo type/length/provenance (for Bv: inline and heap-mode sources via the long-then-truncated and spare-capacity provenances). Enumerated: every (s,e) for n<=40 (quick)/200 (thorough) with three value classes on all 19 types (includes s=e and e=n); all values for n<=8 with every (s,e); every split point for every n<=min(C,140)/320. Oracle: list slice; result passes the observer battery; source unchanged (battery); appending the high part to the low part rebuilds the original. Non-trivial: copy_range with 0<s, e<n, s not word-aligned and the slice crossing a storage-word boundary; split with 0<i<n not word aligned. Distinct by hash of the case.".into()
+        "Cases: copy_range(s..e) with s<=e<=len; split_off(i)/split(i) with i<=len; first()/last(); subject of any zoo type/length/provenance (for Bv: inline and heap-mode sources via the long-then-truncated and spare-capacity provenances). Enumerated: every (s,e) for n<=40 (quick)/200 (thorough) with three value classes on all 20 types (includes s=e and e=n); all values for n<=8 with every (s,e); every split point for every n<=min(C,140)/320. Oracle: list slice; result passes the observer battery; source unchanged (battery); appending the high part to the low part rebuilds the original. Non-trivial: copy_range with 0<s, e<n, s not word-aligned and the slice crossing a storage-word boundary; split with 0<i<n not word aligned. Distinct by hash of the case.".into()
     }
     fn random_cases(&self, tier: Tier) -> u64 {
         tier.pick(200000, 6400000)
@@ -49,9 +49,9 @@ impl Property for C08 {
     }
     fn exhaustive_subspaces(&self, tier: Tier) -> Vec<String> {
         vec![
-            format!("every (s,e), s<=e<=n, for every n<={} (clipped to capacity) x three value classes x 19 types", tier.pick(40, 200)),
-            "all values for n<=8 x every (s,e) x 19 types".into(),
-            format!("every split point i<=n for every n<=min(capacity,{}) x three value classes x split_off/split x 19 types", tier.pick(140, 320)),
+            format!("every (s,e), s<=e<=n, for every n<={} (clipped to capacity) x three value classes x 20 types", tier.pick(40, 200)),
+            "all values for n<=8 x every (s,e) x 20 types".into(),
+            format!("every split point i<=n for every n<=min(capacity,{}) x three value classes x split_off/split x 20 types", tier.pick(140, 320)),
         ]
     }
     fn enumerate(&self, tier: Tier, sh: &mut Shard, f: &mut dyn FnMut(C08Case) -> bool) {
@@ -67,6 +67,27 @@ impl Property for C08 {
                     for s in 0..=n {
                         for e in s..=n {
                             if !f(C08Case::CopyRange { a: Operand::canon(t, a.clone()), s, e }) {
+                                return;
+                            }
+                        }
+                    }
+                }
+            }
+        }
+        for t in [TID_D, TID_A] {
+            for n in [1343usize, 4096, 4097, 5000, 8200] {
+                if !sh.mine() {
+                    continue;
+                }
+                for a in [Bits::ones(n), realize_val(&ValPat::Dense(vec![0x9E37_79B9_7F4A_7C15, 0xD1B5_4A32_D192_ED03, 0x0123_4567_89AB_CDEF]), n, 64)] {
+                    for i in [0usize, 1, 5, 7, 17, 63, 64, 65, 1000, n / 2, n - 65, n - 64, n - 63, n - 1, n] {
+                        for consume in [false, true] {
+                            if !f(C08Case::Split { a: Operand::canon(t, a.clone()), i, consume }) {
+                                return;
+                            }
+                        }
+                        for e in [i, (i + 1).min(n), (i + 64).min(n), (i + 4096).min(n), n] {
+                            if !f(C08Case::CopyRange { a: Operand::canon(t, a.clone()), s: i, e }) {
                                 return;
                             }
                         }
